@@ -36,6 +36,20 @@ PROPS = {
     },
 }
 
+PROPS["C19"] = {
+    "harness": "pipe", "level": "exploration", "per_proc": 150,
+    "quick": {"runs": 4000, "budget_s": 240},
+    "thorough": {"runs": 250000, "budget_s": 1500, "shrink_runs": 500},
+    "rule": "Each run: a generated stage tree (1-10 stages, fan-out <=4, each stage inline or on the real worker pool with 1-3 workers, outcome ok / error / panic, 0-3 units of simulated work) executed by the real pipeline under a seeded schedule (every completion order of concurrently running stages is a schedule). Oracle: exactly-once completion ledger, error propagation, completion only after every started stage finished (when nothing panics), completion within 60 simulated seconds (simulated time advances only when every task is blocked, so this is starvation-free).",
+    "fault_kinds": [],
+    "real": ["query/pipeline.go, pipeline_state_matchine.go", "query/stage/base_stage.go Execute/execute (through the verif hook stage)", "internal/concurrent worker pool (dispatcher, workers, panic handler)", "query/tracker stage tracker"],
+    "stub": ["plan nodes: scripted outcome and simulated work instead of query operators"],
+    "assumptions": COMMON_ASSUME,
+    "design_ref": "5/C19",
+    "level_text": "Seeded exploration of stage trees x outcome assignments x completion orders on the real pipeline, state machine, base stage and worker pool; completion ledger decides.",
+    "technique": "deterministic simulation: seeded baton scheduler over the real worker pool and pipeline; exactly-once / error-propagation ledger; bounded completion in simulated time",
+}
+
 NOT_APPLICABLE = {
     "C13": "pure arithmetic on (timestamp, interval): no schedule, clock, fault or crash point in the quantifier for a simulator to own; its code runs inside the C04/C07/C11 harnesses",
     "C14": "encode/decode are pure functions; pooled-object reuse is owned by the simulator only as a nondeterminism source of other harnesses, not as a fault of this property",
